@@ -19,6 +19,7 @@ type algCase struct {
 	A        []int  `json:"a"`
 	B        []int  `json:"b"`
 	Alias    bool   `json:"alias,omitempty"` // pass A for both operands
+	CollB    string `json:"collator_b,omitempty"` // ordering of the second operand when it differs (same equivalence)
 	Probe    int    `json:"probe"`           // value used for the independence mutation
 }
 
@@ -102,7 +103,11 @@ func execAlg[E any](c algCase, se setElem[E]) (res core.Result) {
 	S := col.Set[E](n)
 	collator, refCmp := collatorFor(se, c.Collator)
 	equiv := func(a, b int) bool { r, ok := refCmp(a, b); return ok && r == 0 }
-	build := func(codes []int) col.SetLike[E] {
+	collatorB := collator
+	if c.CollB != "" {
+		collatorB, _ = collatorFor(se, c.CollB)
+	}
+	build := func(codes []int, collator age.CollatorLike[E]) col.SetLike[E] {
 		var s col.SetLike[E]
 		if collator == nil {
 			s = S.Make()
@@ -173,10 +178,10 @@ func execAlg[E any](c algCase, se setElem[E]) (res core.Result) {
 			}
 		}
 	}
-	A := build(c.A)
+	A := build(c.A, collator)
 	B := A
 	if !c.Alias {
-		B = build(c.B)
+		B = build(c.B, collatorB)
 	}
 	beforeA, beforeB := A.AsArray(), B.AsArray()
 	var R col.SetLike[E]
@@ -306,6 +311,9 @@ func execAlg[E any](c algCase, se setElem[E]) (res core.Result) {
 	}
 	res.NonTrivial = !c.Alias && len(a) > 0 && len(b) > 0 && inter > 0 && !(inter == len(a) && inter == len(b))
 	res.Classes = append(res.Classes, "op-"+c.Op, "elem-"+c.Elem, "collator-"+c.Collator)
+	if c.CollB != "" {
+		res.Classes = append(res.Classes, "operands-ordered-differently")
+	}
 	return res
 }
 
@@ -369,6 +377,13 @@ func genAlgRandom(s core.Source) algCase {
 		c.B = gen("b")
 	}
 	c.Probe = s.Choose(dom, "probe")
+	// the second operand may be ordered differently, as long as it agrees on which values are equal
+	if !c.Alias && c.Collator != "coarse" && s.Choose(3, "collator-b") == 0 {
+		c.CollB = "reversed"
+		if c.Collator == "reversed" {
+			c.CollB = "default"
+		}
+	}
 	return c
 }
 
